@@ -147,6 +147,18 @@ def lru_exhaustive_cases(rng, tier):
     return cases
 
 
+def many_values_case(rng):
+    """more distinct parameter values than the library's default table size (20000) under a rule whose configured capacity is
+    larger still: no value's bucket may be evicted - the first value, drained at the start, is still drained at the end (seed C06-f)"""
+    n = 20000 + rng.randint(2, 30)
+    ops = ["clock", "hs.load res=r rules=%s" % hs_rule("h", "q", "r", 0, "", 1, 0, 0, 120, n + rng.randint(1, 40), [])]
+    eid = 0
+    for v in ["hot", "hot"] + ["v%d" % i for i in range(n)] + ["hot", "v0", "v1"]:
+        eid += 1
+        ops.append("build e=%d res=r batch=1 dir=out args=%s" % (eid, v))
+    return ops
+
+
 def gen_own(rng, tier):
     n = 500 if tier == "quick" else 25000
     return [gen_case(rng) if i % 6 else gen_reload_case(rng) for i in range(n)]
@@ -155,4 +167,4 @@ def gen_own(rng, tier):
 def gen(rng, tier):
     """the property's own streams, with every 8th case taken from the shared mixed-world stream (gen/worldmix.py)"""
     cases = gen_own(rng, tier)
-    return lru_exhaustive_cases(rng, tier) + [c if i % 8 != 7 else MIX.gen_mix(rng) for i, c in enumerate(cases)]
+    return [many_values_case(rng)] + lru_exhaustive_cases(rng, tier) + [c if i % 8 != 7 else MIX.gen_mix(rng) for i, c in enumerate(cases)]
